@@ -12,7 +12,8 @@ RULE = ('Each case = probe-rich generated program (probe = all of is_file/is_dir
         'universe path plus top-down and bottom-up walk of the root; placed at the root between builder calls and inside '
         'nested functions before/after write and after caught nested failures) run over a history that leaves stale '
         'outputs, stale directories holding foreign files and swaps. Every answer (value or OSError subclass) the real '
-        'build produces is compared with the model at the same program point; each probe round is also checked for '
+        'build produces is compared with the model at the same program point (in about a third of the cases the real run asks with '
+        'respelled paths - //, /./, x/../ through a missing component, trailing separator - which must change no answer); each probe round is also checked for '
         'mutual consistency without the model. Non-trivial = a case with a probe executed while >=1 output is in progress '
         'or has failed in this build and the previous build left >=1 stale output or directory; distinct = distinct scenario JSON.')
 ASSUMPTIONS = [
